@@ -145,7 +145,7 @@ var executors = map[string]func(h *caseHdr, ev M, line []byte) any{}
 // specification looks at it).
 func crashOut(ev map[string]any, kind, where, msg string, ms int) any {
 	return M{"kind": kind, "panic": true, "where": where, "msg": msg, "ms": ms,
-		"merr": "", "uerr": "", "bytes": []any{}, "back": []any{}, "backUTC": true, "laws": []any{}}
+		"merr": "", "uerr": "", "bytes": []any{}, "back": []any{}, "backUTC": true, "laws": []any{}, "desc": M{"have": false}, "cross": M{"have": false}}
 }
 
 // ptrFor returns the pointer a codec's writer methods expect for the value held in pv (a pointer
@@ -238,6 +238,60 @@ func law(c plenccodec.Codec, pv reflect.Value, path string) M {
 	return l
 }
 
+var ftNames = map[plenccodec.FieldType]string{
+	plenccodec.FieldTypeInt: "Int", plenccodec.FieldTypeUint: "Uint", plenccodec.FieldTypeFloat32: "Float32",
+	plenccodec.FieldTypeFloat64: "Float64", plenccodec.FieldTypeString: "String", plenccodec.FieldTypeSlice: "Slice",
+	plenccodec.FieldTypeStruct: "Struct", plenccodec.FieldTypeBool: "Bool", plenccodec.FieldTypeTime: "Time",
+	plenccodec.FieldTypeJSONObject: "JSONObject", plenccodec.FieldTypeJSONArray: "JSONArray", plenccodec.FieldTypeFlatInt: "FlatInt",
+}
+var ltNames = map[plenccodec.LogicalType]string{
+	plenccodec.LogicalTypeNone: "None", plenccodec.LogicalTypeTimestamp: "Timestamp", plenccodec.LogicalTypeDate: "Date",
+	plenccodec.LogicalTypeTime: "Time", plenccodec.LogicalTypeMap: "Map", plenccodec.LogicalTypeMapEntry: "MapEntry",
+}
+
+// projDesc maps a Descriptor to the abstract form compared by the specification.
+func projDesc(d *plenccodec.Descriptor, depth int) M {
+	ft, ok := ftNames[d.Type]
+	if !ok {
+		ft = fmt.Sprintf("FieldType(%d)", int(d.Type))
+	}
+	lt, ok := ltNames[d.LogicalType]
+	if !ok {
+		lt = fmt.Sprintf("LogicalType(%d)", int(d.LogicalType))
+	}
+	es := []any{}
+	if depth > 0 {
+		for i := range d.Elements {
+			es = append(es, projDesc(&d.Elements[i], depth-1))
+		}
+	}
+	return M{"index": d.Index, "name": d.Name, "type": ft, "tname": d.TypeName, "explicit": d.ExplicitPresence, "logical": lt, "elems": es}
+}
+
+// hasRecursion reports whether the abstract type reaches one of the recursive static families (whose
+// by-value Descriptor is infinite: Descriptor() never returns, finding F16).
+func hasRecursion(t *abs.TD) bool {
+	switch t.K {
+	case "ref":
+		switch t.N {
+		case "RecS", "RecP", "RecM", "MutA", "MutB", "RecPS":
+			return true
+		}
+		return hasRecursion(abs.Env()[t.N])
+	case "ptr", "slice":
+		return hasRecursion(t.E)
+	case "map":
+		return hasRecursion(t.Key) || hasRecursion(t.Val)
+	case "struct":
+		for i := range t.F {
+			if hasRecursion(t.F[i].T) {
+				return true
+			}
+		}
+	}
+	return false
+}
+
 func isRepeatedCodec(c plenccodec.Codec) bool {
 	for {
 		switch x := c.(type) {
@@ -253,7 +307,7 @@ func isRepeatedCodec(c plenccodec.Codec) bool {
 
 func execCodec(h *caseHdr, ev M) any {
 	out := M{"kind": "ok", "panic": false, "where": "", "msg": "", "merr": "", "uerr": "", "bytes": []any{}, "back": []any{},
-		"backUTC": true, "laws": []any{}}
+		"backUTC": true, "laws": []any{}, "desc": M{"have": false}, "cross": M{"have": false}}
 	var gt reflect.Type
 	var in reflect.Value
 	p := instanceFor(h)
@@ -287,6 +341,24 @@ func execCodec(h *caseHdr, ev M) any {
 		out["panic"], out["where"], out["msg"] = true, where, msg
 		return out
 	}
+	// C12: data written in the repeated-field form is decoded by an instance without ProtoCompatibleArrays
+	out["cross"] = M{"have": false}
+	if h.Cfg.ProtoArrays && out["merr"] == "" {
+		c2 := h.Cfg
+		c2.ProtoArrays = false
+		p2 := newInstance(c2)
+		cross := M{"have": true, "panic": false, "uerr": "", "back": []any{}}
+		panicked, where, msg = guard(func() {
+			back := reflect.New(gt)
+			uerr := p2.Unmarshal(abs.ToBytes(out["bytes"]), back.Interface())
+			cross["uerr"] = errStr(uerr)
+			cross["back"] = abs.Project(h.T, back.Elem())
+		})
+		if panicked {
+			cross["panic"], cross["where"], cross["msg"] = true, where, msg
+		}
+		out["cross"] = cross
+	}
 	// codec laws for the top-level codec and, one level down, for every struct field's codec
 	laws := []any{}
 	panicked, where, msg = guard(func() {
@@ -319,5 +391,20 @@ func execCodec(h *caseHdr, ev M) any {
 		laws = append(laws, M{"path": "?", "ok": false, "where": where, "msg": msg})
 	}
 	out["laws"] = laws
+	// the descriptor of the type (C14, C09); recursive types are asked for theirs in the "desc" event only
+	out["desc"] = M{"have": false}
+	if !hasRecursion(h.T) {
+		panicked, where, msg = guard(func() {
+			c, err := p.CodecForType(gt)
+			if err != nil {
+				return
+			}
+			d := c.Descriptor()
+			out["desc"] = M{"have": true, "d": projDesc(&d, 12)}
+		})
+		if panicked {
+			out["desc"] = M{"have": false, "panic": true, "where": where, "msg": msg}
+		}
+	}
 	return out
 }
